@@ -76,6 +76,7 @@ def strategy(tier):
                              min_size=1,
                              max_size=2),
         "reopen": st.booleans(),
+        "hashes": st.sampled_from([["xxh64"], ["xxh64"], []]),
     })
 
 
@@ -100,8 +101,8 @@ def jr(x):
 
 def run_case(case, ctx):
     from sedpack.io import Dataset
-    desc = dsops.simple_desc(case["fmt"], "", case["eps"], ["xxh64"],
-                             payload=False)
+    desc = dsops.simple_desc(case["fmt"], "", case["eps"],
+                             case.get("hashes", ["xxh64"]), payload=False)
     root = env.scratch_dir("c11")
     try:
         ds = dsops.create_dataset(root / "ds", desc)
@@ -154,6 +155,32 @@ def run_case(case, ctx):
                     next_id += 1
             # the caller keeps using its object after the session as well
             mutate(shared, ["k", 99 + s_no])
+            # selecting by metadata through the handle that is kept across
+            # sessions must see what has been written so far
+            for split in dsops.SPLITS[:2]:
+                labelled = [(i, mi) for i, s, mi in written
+                            if s == split and mi is not None]
+                if not labelled:
+                    continue
+                m = jr(labelled[-1][1])
+                want = sorted(i for i, mi in labelled if jr(mi) == m)
+                try:
+                    got = sorted(
+                        dsops.ex_id_of(e) for e in dsops.read_all(
+                            ds, split, "sync", shuffle=0,
+                            shard_filter=lambda s, m=m: s.custom_metadata == m)
+                        if dsops.ex_id_of(e) in {i for i, _ in labelled})
+                except ValueError:
+                    got = []
+                if got != want:
+                    ctx.fail(
+                        "select", ("filter-by-metadata-mismatch",
+                                   "kept-handle"),
+                        f"after session {s_no} the kept handle selects "
+                        f"{got} for metadata {m} in {split}, written with it: "
+                        f"{want}")
+                ctx.count("filters")
+                ctx.evaluated()
         # ---- oracle
         tree = dsops.walk_dataset(root / "ds")
         where = {}
